@@ -5,6 +5,7 @@ import ChitchatModel.Driver.Sexp
 import ChitchatModel.Model.Listener
 import ChitchatModel.Model.Select
 import ChitchatModel.Model.Server
+import ChitchatModel.Model.Udp
 namespace Chitchat.Driver
 open Chitchat
 
@@ -12,6 +13,7 @@ structure World where
   nodes : List (Nat × Node) := []
   now : Nat := 0
   listeners : List (Nat × Listeners) := []
+  udp : UdpSock := {}
 
 def World.listenersOf (w : World) (slot : Nat) : Listeners :=
   ((w.listeners.find? (fun p => p.1 == slot)).map (·.2)).getD []
@@ -368,6 +370,21 @@ def step (w : World) (cmd : Sexp) : World × String :=
       | none => (w, "(err)")
       | some (m, rest) => (w, pList "ok" [toString rest.length, pMsg m])
     | _, _ => bad w "dec"
+  | .list [.atom "usend", m, dest, oracle] =>
+    match rMsg m, rOracle oracle, (match dest with | .atom "peer" => some Dest.peer | .atom "unreach" => some Dest.unreachable | _ => none) with
+    | some m, some oracle, some dest =>
+      match (w.udp).send (oracleCompressor oracle) m dest with
+      | .error e => (w, pPanic e)
+      | .ok (u, some d) => ({ w with udp := u }, pList "sent" [pBytes d])
+      | .ok (u, none) => ({ w with udp := u }, "(fail)")
+    | _, _, _ => bad w "usend"
+  | .list [.atom "urecv", b, oracle] =>
+    match b.bytes?, rOracle oracle with
+    | some b, some oracle =>
+      match UdpSock.receiveOne (oracleCompressor oracle) b with
+      | none => (w, "(skip)")
+      | some m => (w, pList "got" [pMsg m])
+    | _, _ => bad w "urecv"
   | _ => bad w "unknown"
 
 partial def loop (h : IO.FS.Stream) (out : IO.FS.Stream) (flush : Bool) (w : World) : IO Unit := do
